@@ -31,6 +31,12 @@ import crsdgen
 
 LOGGER = 'sarpy.io.phase_history.cphd'     # CRSDWritingDetails inherits verify_all_written from this module
 K_SEPARATOR = 'header-string-with-separator-unreadable'
+K_AMPSF = 'refused-pvp-rewrite-replaces-ampsf'
+
+# theorems of lean/SarpyModel/Props/C09W.lean (namespace Sarpy.Props.C09) about Spec.CphdWriter
+REQUIRED_W = []
+# restatements for the CRSD instantiation in lean/SarpyModel/Props/C11W.lean (namespace Sarpy.Props.C11)
+REQUIRED_W11 = []
 
 
 class Proxy:
@@ -651,3 +657,73 @@ def settle(jobs, ans):
             out.append({'what': 'writer machine (cphd wrun / hdrtext): ' + d, 'case': j['case']})
         j['obs'] = None     # free the arrays
     return out
+
+
+def finding_probes(kind, tmpdir):
+    """two fixed histories that the random generator does not draw; each failure carries its finding key"""
+    fails = []
+    gen, Writer, opener, _ = family(kind)
+    # (1) a header string that contains the key/value separator: the file is written, the reader refuses its own header
+    case = {'kind': kind, 'fmt': 'CI2', 'sizes': [(2, 3)], 'amp_sf': False, 'support': [], 'release_info': 'APPROVED := YES', 'target': 'path',
+            'style': 'probe', 'seed': 1}
+    path = os.path.join(tmpdir, 'probe.bin')
+    try:
+        g, meta = build(case)
+        rng = random.Random(1)
+        pvp, raw = g.make_pvp(meta, rng), g.make_raw(meta, rng)
+        if os.path.exists(path):
+            os.remove(path)
+        w = Writer(path, meta.copy(), check_existence=False)
+        w.write_file_raw(pvp, raw, None)
+        w.close()
+        try:
+            rdr = opener(path)
+            rdr.close()
+        except Exception as e:
+            fails.append({'kind': 'read', 'msg': f'{kind} with ReleaseInfo {case["release_info"]!r} is written but cannot be reopened: {type(e).__name__}: {str(e)[:120]}',
+                          'case': case, 'key': K_SEPARATOR})
+    except Exception as e:
+        fails.append({'kind': 'write', 'msg': f'separator probe raised {type(e).__name__}: {e}', 'case': case, 'key': None})
+    # (2) in memory: a refused second write_pvp_array must not change what later formatted signal writes store
+    case = {'kind': kind, 'fmt': 'CI4', 'sizes': [(2, 3)], 'amp_sf': True, 'support': [], 'release_info': 'UNRESTRICTED', 'target': 'bytesio',
+            'style': 'probe', 'seed': 2}
+    try:
+        g, meta = build(case)
+        rng = random.Random(2)
+        pvp, raw = g.make_pvp(meta, rng), g.make_raw(meta, rng)
+        ch = meta.Data.Channels[0].Identifier
+        pvp[ch]['AmpSF'] = 0.5
+        other = pvp[ch].copy()
+        other['AmpSF'] = 0.25
+        fo = io.BytesIO()
+        w = Writer(fo, meta.copy(), check_existence=False)
+        w.write_pvp_array(ch, pvp[ch])
+        refused = False
+        try:
+            w.write_pvp_array(ch, other)
+        except Exception:
+            refused = True
+        w.write(cphdgen.formatted(raw[ch], pvp[ch]['AmpSF']), index=ch)
+        w.close()
+        with open(path, 'wb') as fh:
+            fh.write(fo.getvalue())
+        rdr = opener(path)
+        try:
+            amp_file = numpy.asarray(rdr.read_pvp_variable('AmpSF', 0))
+            got = numpy.asarray(rdr.read_signal_block_raw()[ch]).reshape(raw[ch].shape)
+        finally:
+            rdr.close()
+        if refused and numpy.array_equal(amp_file, pvp[ch]['AmpSF']) and not numpy.array_equal(got, raw[ch]):
+            fails.append({'kind': 'data', 'msg': f'{kind}, BytesIO target: after a refused second write_pvp_array the file keeps the first AmpSF but later formatted '
+                                                  'signal writes are scaled by the refused one (signal differs after write/read)', 'case': case, 'key': K_AMPSF})
+        elif not refused and not numpy.array_equal(got, raw[ch]) and numpy.array_equal(amp_file, pvp[ch]['AmpSF']):
+            fails.append({'kind': 'data', 'msg': f'{kind}, BytesIO target: signal differs after write/read around a repeated write_pvp_array', 'case': case, 'key': None})
+    except Exception as e:
+        fails.append({'kind': 'write', 'msg': f'AmpSF probe raised {type(e).__name__}: {e}', 'case': case, 'key': None})
+    return fails
+
+
+def replay_case(case, tmpdir):
+    """re-run one stored writer history on the implementation alone (oracle only)"""
+    obs = run_history(case, tmpdir)
+    return oracle(case, obs, tmpdir)
